@@ -98,10 +98,10 @@ func set16(s *z80.States, n string, v int) {
 var regCode = map[string]int{"BC": 0, "DE": 1, "HL": 2, "SP": 3, "IX": 4, "IY": 5}
 
 type job16 struct {
-	e      *CatEntry
-	aVals  []int
-	xVals  []int // nil = all 65536
-	fVals  []int
+	e     *CatEntry
+	aVals []int
+	xVals []int // nil = all 65536
+	fVals []int
 }
 
 func runJob16(j *job16, o *oracle16, ss *sweepStats) {
